@@ -298,6 +298,10 @@ theorem suspend_le (i : Frid) (f : Fid) (needs : List NeedId) (aux : Frid) (trac
   intro v hv
   unfold suspend at hv ⊢
   split
+  · rename_i hpl; rw [if_pos hpl] at hv; exact hv
+  rename_i hpl
+  rw [if_neg hpl] at hv
+  split
   · rename_i hd; simp only [hd, if_true] at hv; exact suspendStart_le P sem hle i f needs aux tracts s v hv
   · rename_i hd
     simp only [hd] at hv
